@@ -190,7 +190,7 @@ theorem arrayFromfile_spec (data : Bits) (isz : Nat) (file : Bytes) (fk : FKind)
     (hisz : 0 < isz) (htr : data.length % isz = 0)
     (hn : ∀ k, n = some k → 0 ≤ k ∧ k ≤ ((8 * file.length / isz : Nat) : Int)) :
     arrayFromfile data isz file fk n =
-      .ok (data ++ (bytesToBits file).take ((match n with
+      .ok (false, data ++ (bytesToBits file).take ((match n with
                                               | none => 8 * file.length / isz
                                               | some k => k.toNat) * isz)) := by
   exact arrayFromfile_eq data isz file fk n hisz htr hn
@@ -201,23 +201,58 @@ theorem arrayFromfile_trailing (data : Bits) (isz : Nat) (file : Bytes) (fk : FK
     arrayFromfile data isz file fk n = .error .value := by
   exact arrayFromfile_trailing' data isz file fk n hisz htr
 
-/-- Asking for more items than the file holds is an error. -/
+/-- Asking for more items than the file holds: EOFError is raised, and what the Array holds afterwards is its
+    old data followed by every WHOLE item of the file and nothing else — in particular not the left-over partial
+    item when the file size is not a multiple of the item size (so the Array has no trailing bits and can still
+    be appended to). -/
 theorem arrayFromfile_short (data : Bits) (isz : Nat) (file : Bytes) (fk : FKind) (k : Int)
     (hisz : 0 < isz) (htr : data.length % isz = 0) (hk : ((8 * file.length / isz : Nat) : Int) < k) :
-    ∃ e, arrayFromfile data isz file fk (some k) = .error e := by
+    arrayFromfile data isz file fk (some k) =
+      .ok (true, data ++ (bytesToBits file).take (8 * file.length / isz * isz)) := by
   exact arrayFromfile_short' data isz file fk k hisz htr hk
+
+/-- Whenever `fromfile` gets as far as appending (with or without EOFError), the Array is left with whole
+    items only. -/
+theorem arrayFromfile_whole_items (data : Bits) (isz : Nat) (file : Bytes) (fk : FKind) (n : Option Int)
+    (hisz : 0 < isz) (hn : ∀ k, n = some k → 0 ≤ k) (eof : Bool) (d : Bits)
+    (h : arrayFromfile data isz file fk n = .ok (eof, d)) : d.length % isz = 0 := by
+  by_cases htr : data.length % isz = 0
+  · have hq : 8 * file.length / isz * isz ≤ 8 * file.length := Nat.div_mul_le_self _ _
+    cases n with
+    | none =>
+      rw [arrayFromfile_eq data isz file fk none hisz htr (by intro k hk; cases hk)] at h
+      injection h with h; injection h with _ h; subst h
+      simp only [List.length_append, List.length_take, bytesToBits_length]
+      rw [Nat.min_eq_left hq, Nat.add_mod, htr, Nat.mul_mod_left]; simp
+    | some k =>
+      have hk0 := hn k rfl
+      by_cases hk : ((8 * file.length / isz : Nat) : Int) < k
+      · rw [arrayFromfile_short' data isz file fk k hisz htr hk] at h
+        injection h with h; injection h with _ h; subst h
+        simp only [List.length_append, List.length_take, bytesToBits_length]
+        rw [Nat.min_eq_left hq, Nat.add_mod, htr, Nat.mul_mod_left]; simp
+      · rw [arrayFromfile_eq data isz file fk (some k) hisz htr
+          (by intro k' hk'; cases hk'; exact ⟨hk0, by omega⟩)] at h
+        injection h with h; injection h with _ h; subst h
+        have hle : k.toNat * isz ≤ 8 * file.length := by
+          have : k.toNat ≤ 8 * file.length / isz := by omega
+          exact Nat.le_trans (Nat.mul_le_mul_right _ this) hq
+        simp only [List.length_append, List.length_take, bytesToBits_length]
+        rw [Nat.min_eq_left hle, Nat.add_mod, htr, Nat.mul_mod_left]; simp
+  · rw [arrayFromfile_trailing' data isz file fk n hisz htr] at h
+    cases h
 
 /-- Array round trip: what `tofile` wrote reads back as the whole items of the zero-padded data. -/
 theorem array_roundtrip (data : Bits) (isz chunk : Nat) (fk : FKind) (h8 : 8 ∣ chunk) (hpos : 0 < chunk)
     (hisz : 0 < isz) :
     (arrayTofile chunk data >>= fun w => arrayFromfile [] isz w fk none) =
-      .ok ((padded data).take ((padded data).length / isz * isz)) := by
+      .ok (false, (padded data).take ((padded data).length / isz * isz)) := by
   exact array_roundtrip_eq data isz chunk fk (by omega) hpos hisz
 
 /-- … which is the data itself when it is whole bytes and whole items. -/
 theorem array_roundtrip_exact (data : Bits) (isz chunk : Nat) (fk : FKind) (h8 : 8 ∣ chunk) (hpos : 0 < chunk)
     (hisz : 0 < isz) (hb : data.length % 8 = 0) (hi : data.length % isz = 0) :
-    (arrayTofile chunk data >>= fun w => arrayFromfile [] isz w fk none) = .ok data := by
+    (arrayTofile chunk data >>= fun w => arrayFromfile [] isz w fk none) = .ok (false, data) := by
   rw [array_roundtrip_eq data isz chunk fk (by omega) hpos hisz, padded_of_dvd data hb]
   have : data.length / isz * isz = data.length := by
     have := Nat.div_add_mod data.length isz
@@ -239,6 +274,9 @@ example : (8 ∣ 16) ∧ 0 < 16 ∧ (Store.mem [true]).WF := by
   refine ⟨by decide, by decide, ?_⟩
   intro n h; cases h
 example : arrayFromfile [true, false, true] 3 [165, 60] .handle (some 2)
-    = .ok [true, false, true, true, false, true, false, false, true] := by decide
+    = .ok (false, [true, false, true, true, false, true, false, false, true]) := by decide
+example : arrayFromfile [] 12 [165, 60, 255] .bytesio (some 5)
+    = .ok (true, [true, false, true, false, false, true, false, true, false, false, true, true,
+                  true, true, false, false, true, true, true, true, true, true, true, true]) := by decide
 
 end BM.C17
